@@ -1,6 +1,7 @@
 """C15 — csv/text rows have one field per selection and csv is machine-readable."""
 from rules import printer_rules as PR
 from rules import number_rules as NR
+from rules import common
 
 INFO = {
     "decided": "The structural conditions for an RFC 4180 reader to recover the fields: (a) the csv preset is comma "
@@ -34,3 +35,6 @@ def run(ctx, rep):
     NR.print_direct(rep, lib, rid="C15-NUMFMT")
     PR.text_rows(rep, lib)
     PR.selection_width(rep, lib)
+    # the row itself: with_result appends exactly one entry and changes nothing else
+    from rules import c12
+    common.share(c12, ctx, rep, {"C12-FRAME", "C12-EXTEND"}, key_prefixes=["with_result"], floors={"C12-FRAME": 7, "C12-EXTEND": 1})
